@@ -48,7 +48,7 @@ fn is_lit(b: &[u8], t: &[u8]) -> bool {
 
 /// scheme -> (is_http, is_https, is_supported, forced websocket type) for every scheme string <= 5 bytes
 #[kani::proof]
-#[kani::unwind(8)]
+#[kani::unwind(12)]
 #[kani::stub(crate::utils::fast_hash, stub_fast_hash_rec)]
 fn c12_scheme() {
     let mut dr = crate::verif_shim::Draw::new();
@@ -116,8 +116,28 @@ fn c12_types() {
     kani::cover!(code == 12, "W:types.other");
 }
 
-/// source-host hashes: absent iff the host is empty; otherwise the full host followed by one entry per
-/// '.'-suffix (a '.' that is the last byte adds none), in that order, each the hash of exactly that suffix.
+pub fn stub_fast_hash_plain(input: &str) -> utils::Hash {
+    pack(input.as_bytes())
+}
+// Recording stub without a counter (a read-modify-write of a static inside the stub makes Kani report
+// spurious pointer failures in Vec::push on this path — measured): every string hashed on this path is a
+// suffix of the source host, and suffixes have pairwise distinct lengths, so the slot is the string length.
+static mut SEEN: [bool; 8] = [false; 8];
+static mut BYLEN: [u64; 8] = [0; 8];
+pub fn stub_fast_hash_bylen(input: &str) -> utils::Hash {
+    let h = pack(input.as_bytes());
+    let n = input.len();
+    unsafe {
+        if n < 8 {
+            SEEN[n] = true;
+            BYLEN[n] = h;
+        }
+    }
+    h
+}
+
+/// source-host hashes: absent iff the host is empty; otherwise the full host plus one entry per '.'-suffix
+/// (a '.' that is the last byte adds none), each the hash of exactly that suffix, and nothing else.
 fn srchash_kernel<const N: usize>() {
     let mut dr = crate::verif_shim::Draw::new();
     let hb: [u8; N] = dr.bytes::<N>();
@@ -126,20 +146,28 @@ fn srchash_kernel<const N: usize>() {
     let r = Request::preparsed("a:", "", h, "image", false);
     unsafe {
         match &r.source_hostname_hashes {
-            None => assert!(hl == 0, "P:srchash.absent_iff_empty"),
+            None => {
+                assert!(hl == 0, "P:srchash.absent_iff_empty");
+            }
             Some(v) => {
                 assert!(hl > 0, "P:srchash.present_iff_nonempty");
-                assert!(RECN >= 1 && REC[0] == pack(&hb[..hl]), "P:srchash.first_is_full_host");
+                assert!(SEEN[hl] && BYLEN[hl] == pack(&hb[..hl]), "P:srchash.full_host_hashed");
                 let mut k = 1;
                 let mut i = 0;
                 while i < N {
-                    if i < hl && hb[i] == b'.' && i + 1 < hl {
-                        assert!(k < 8 && REC[k] == pack(&hb[i + 1..hl]), "P:srchash.suffix_after_each_dot");
-                        k += 1;
+                    // suffix starting at i+1 has length hl-i-1
+                    if i < hl && i + 1 < hl {
+                        let want = hb[i] == b'.';
+                        let l = hl - i - 1;
+                        if want {
+                            assert!(SEEN[l] && BYLEN[l] == pack(&hb[i + 1..hl]), "P:srchash.suffix_after_each_dot");
+                            k += 1;
+                        } else {
+                            assert!(!SEEN[l], "P:srchash.nothing_else_hashed");
+                        }
                     }
                     i += 1;
                 }
-                assert!(RECN == k, "P:srchash.nothing_else_hashed");
                 assert!(v.len() == k, "P:srchash.count");
                 kani::cover!(k >= 3, "W:srchash.two_dots");
             }
@@ -150,13 +178,51 @@ fn srchash_kernel<const N: usize>() {
 }
 #[kani::proof]
 #[kani::unwind(8)]
-#[kani::stub(crate::utils::fast_hash, stub_fast_hash_rec)]
+#[kani::stub(crate::utils::fast_hash, stub_fast_hash_bylen)]
 fn c12_srchash() {
     srchash_kernel::<4>();
 }
 #[kani::proof]
 #[kani::unwind(9)]
-#[kani::stub(crate::utils::fast_hash, stub_fast_hash_rec)]
+#[kani::stub(crate::utils::fast_hash, stub_fast_hash_bylen)]
 fn c12_srchash_t() {
     srchash_kernel::<5>();
+}
+
+#[kani::proof]
+#[kani::unwind(8)]
+#[kani::stub(crate::utils::fast_hash, stub_fast_hash_plain)]
+fn c12_presplit() {
+    presplit_kernel::<3>();
+}
+#[kani::proof]
+#[kani::unwind(8)]
+#[kani::stub(crate::utils::fast_hash, stub_fast_hash_plain)]
+fn c12_presplit_t() {
+    presplit_kernel::<4>();
+}
+
+/// the scheme Request::preparsed derives from the URL text is the prefix before the first ':' (none: empty):
+/// URL <= 4 printable ASCII bytes; supported <=> that prefix is one of "", http, https, ws, wss.
+fn presplit_kernel<const N: usize>() {
+    let mut dr = crate::verif_shim::Draw::new();
+    let ub: [u8; N] = dr.bytes::<N>();
+    let ul: usize = dr.usize();
+    let u = sym_ascii(&ub, ul);
+    let r = Request::preparsed(u, "", "", "image", false);
+    let mut colon = usize::MAX;
+    let mut i = 0;
+    while i < N {
+        if colon == usize::MAX && i < ul && ub[i] == b':' {
+            colon = i;
+        }
+        i += 1;
+    }
+    let scheme: &[u8] = if colon == usize::MAX { &ub[..0] } else { &ub[..colon] };
+    let (h, hs, w, ws) = (is_lit(scheme, b"http"), is_lit(scheme, b"https"), is_lit(scheme, b"ws"), is_lit(scheme, b"wss"));
+    assert!(r.is_supported == (scheme.len() == 0 || h || hs || w || ws), "P:presplit.supported_iff_scheme_before_first_colon_is_known");
+    assert!((r.request_type == RequestType::Websocket) == (w || ws), "P:presplit.ws_forces_websocket_type");
+    kani::cover!(!r.is_supported, "W:presplit.unsupported");
+    kani::cover!(r.request_type == RequestType::Websocket, "W:presplit.websocket");
+    core::mem::forget(r);
 }
